@@ -89,9 +89,13 @@ static void do_dep(std::vector<std::string> const& tk)
 
 static void do_mseq(std::vector<std::string> const& tk)
 {
+  static std::vector<s4u::MutexPtr> keep; // never destroyed: a mutex may end with pending acquisitions
   auto mtx = s4u::Mutex::create();
-  auto* m  = mtx->pimpl_;
-  std::map<long, act::MutexAcquisitionImplPtr> acq;
+  keep.push_back(mtx);
+  auto* m = mtx->pimpl_;
+  static std::vector<std::map<long, act::MutexAcquisitionImplPtr>> keep_acq;
+  keep_acq.emplace_back();
+  auto& acq = keep_acq.back();
   for (size_t i = 1; i + 1 < tk.size(); i += 2) {
     long a     = std::stol(tk[i]);
     int op     = std::stoi(tk[i + 1]);
@@ -102,7 +106,7 @@ static void do_mseq(std::vector<std::string> const& tk)
         acq[a] = m->lock_async(who);
         break;
       case 1:
-        res = acq.at(a)->is_granted() ? 1 : 0;
+        res = acq.count(a) ? (acq.at(a)->is_granted() ? 1 : 0) : (m->get_owner() == who ? 1 : 0); // owner through try_lock
         break;
       case 2:
         res = m->try_lock(who) ? 1 : 0;
@@ -125,9 +129,13 @@ static void do_mseq(std::vector<std::string> const& tk)
 
 static void do_sseq(std::vector<std::string> const& tk)
 {
+  static std::vector<s4u::SemaphorePtr> keep;
   auto sem = s4u::Semaphore::create(std::stoul(tk.at(1)));
-  auto* s  = sem->pimpl_;
-  std::map<long, act::SemAcquisitionImplPtr> acq;
+  keep.push_back(sem);
+  auto* s = sem->pimpl_;
+  static std::vector<std::map<long, act::SemAcquisitionImplPtr>> keep_acq;
+  keep_acq.emplace_back();
+  auto& acq = keep_acq.back();
   for (size_t i = 2; i + 1 < tk.size(); i += 2) {
     long a    = std::stol(tk[i]);
     int op    = std::stoi(tk[i + 1]);
